@@ -335,10 +335,11 @@ Definition add_edge_label (s : istate) (e : elabel) : istate * outcome :=
   | None => (mk_state (st_nls s) (el_set (st_els s) e) (st_doms s) (st_facs s), RNone)
   end.
 
+(** the "already mapped" test comes first (since /repo 6c89611): a failing call changes nothing *)
 Definition add_domain (s : istate) (n : name) (d : domain) : istate * outcome :=
-  let s := add_node_label s n in
   if dmem Nat.eqb (st_doms s) n then (s, RErr ValueErr)
-  else (mk_state (st_nls s) (st_els s) (dset Nat.eqb (st_doms s) n d) (st_facs s), RNone).
+  else let s := add_node_label s n in
+       (mk_state (st_nls s) (st_els s) (dset Nat.eqb (st_doms s) n d) (st_facs s), RNone).
 
 (** [el.name in self.factors] (since /repo 19d007a; before that [el in self.factors] looked an
     EdgeLabel up among str keys and was constantly false, F14 -- see [add_factor_old] in
@@ -356,14 +357,21 @@ Fixpoint check_doms (doms : list (name * domain)) (nls : list name) (ds : list d
   | _, _ => true
   end.
 
+(** [self.has_edge_label_name(el.name) and self.get_edge_label(el.name) != el] *)
+Definition label_clash (s : istate) (e : elabel) : bool :=
+  match el_find (st_els s) (el_name e) with Some e' => negb (elabel_eqb e' e) | None => false end.
+
+(** all tests first, [add_edge_label] only just before the factor is stored (since /repo
+    6c89611): a failing call changes nothing *)
 Definition add_factor (s : istate) (e : elabel) (f : factor) : istate * outcome :=
   if negb (el_terminal e) then (s, RErr ValueErr)
+  else if label_clash s e then (s, RErr ValueErr)
+  else if label_bound e (st_facs s) then (s, RErr ValueErr)
+  else if negb (Nat.eqb (fac_arity f) (length (el_type e))) then (s, RErr ValueErr)
+  else if negb (check_doms (st_doms s) (el_type e) (fac_doms f)) then (s, RErr ValueErr)
   else match add_edge_label s e with
        | (s1, RNone) =>
-         if label_bound e (st_facs s1) then (s1, RErr ValueErr)
-         else if negb (Nat.eqb (fac_arity f) (length (el_type e))) then (s1, RErr ValueErr)
-         else if negb (check_doms (st_doms s1) (el_type e) (fac_doms f)) then (s1, RErr ValueErr)
-         else (mk_state (st_nls s1) (st_els s1) (st_doms s1) (dset Nat.eqb (st_facs s1) (el_name e) f), RNone)
+         (mk_state (st_nls s1) (st_els s1) (st_doms s1) (dset Nat.eqb (st_facs s1) (el_name e) f), RNone)
        | (s1, r) => (s1, r)
        end.
 
